@@ -67,7 +67,8 @@ Print Assumptions C36_delay_returns_early_on_cancel.
 (* Second tie (DESIGN 3.5, docs/gotrans.md): touch / Signal / Release / Reset as translated from
    store/throttler/throttler.go on this run are the hand model's functions (rep = the Go-side struct of
    a model state; absorb = that struct and the timer calls the method made, applied to the model state). *)
-From RQ Require Import Gen.Throttler Proofs.C36_Gen.
+From RQ Require Import Gen.Throttler.
+From RQ Require Import Proofs.C36_Gen.
 Theorem C36_source_derived_eq :
   (forall s, absorb s (rep s) (Throttler_touch unit (rep s)) = touch s) /\
   (forall s, absorb s (fst (Throttler_Signal unit (rep s))) (snd (Throttler_Signal unit (rep s))) = signal s) /\
